@@ -332,11 +332,126 @@ def div_guarded(ctx: Ctx):
     # the methods of SVD_FUNS and the NNDSVD post-processing (every function of the module that divides)
     scope = [ctx.repo.func(S + nm) for nm in names if ctx.repo.has_func(S + nm)]
     scope += [g for g in ctx.repo.functions.values() if g.module is mod and g.cls is None and g not in scope and g.name == "make_svd_non_negative"]
+    from ..inline import with_inlined
+
     for f in scope:
+        f = with_inlined(ctx.repo, f)  # the parts and their norms may come from a private helper
         par = {}
         for p_ in ast.walk(f.node):
             for c_ in ast.iter_child_nodes(p_):
                 par[id(c_)] = p_
+
+        def _leaves(block):
+            return bool(block) and isinstance(block[-1], (ast.Return, ast.Raise, ast.Continue, ast.Break))
+
+        def facts_at(st):
+            """branch decisions known at ``st``: [(test, polarity)] from the enclosing `if`s and from the guard
+            clauses (`if T: continue / return / raise`) that precede it in an enclosing block, as long as no
+            name the test reads is written in between"""
+            out = []
+            cur = st
+            outer_written = set()  # names written by a loop already left behind: older decisions about them are stale
+
+            def stores(nodes):
+                return {x.id for n_ in nodes for x in ast.walk(n_) if isinstance(x, ast.Name) and isinstance(x.ctx, ast.Store)}
+
+            def reads(t):
+                return {x.id for x in ast.walk(t) if isinstance(x, ast.Name)}
+
+            while id(cur) in par:
+                p_ = par[id(cur)]
+                if isinstance(p_, ast.If):
+                    for blk, pol in ((p_.body, True), (p_.orelse, False)):
+                        if any(cur is b_ for b_ in blk):
+                            i = next(k for k, b_ in enumerate(blk) if b_ is cur)
+                            if not (reads(p_.test) & (stores(blk[:i]) | outer_written)):
+                                out.append((p_.test, pol, p_))
+                for fld in ("body", "orelse", "finalbody"):
+                    blk = getattr(p_, fld, None)
+                    if isinstance(blk, list) and any(cur is b_ for b_ in blk):
+                        i = next(k for k, b_ in enumerate(blk) if b_ is cur)
+                        written = set(outer_written)
+                        for prev in reversed(blk[:i]):
+                            if isinstance(prev, ast.If) and (_leaves(prev.body) and not prev.orelse or (prev.orelse and _leaves(prev.orelse) and not _leaves(prev.body))):
+                                pol = not (_leaves(prev.body) and not prev.orelse)
+                                if not ({x.id for x in ast.walk(prev.test) if isinstance(x, ast.Name)} & written):
+                                    out.append((prev.test, pol, prev))
+                            written |= {x.id for x in ast.walk(prev) if isinstance(x, ast.Name) and isinstance(x.ctx, ast.Store)}
+                if isinstance(p_, (ast.FunctionDef, ast.AsyncFunctionDef)):
+                    break
+                if isinstance(p_, (ast.For, ast.While)):
+                    outer_written |= stores([p_])
+                cur = p_
+            return out
+
+        def true_atoms(facts):
+            """comparisons that hold, by splitting and / or / not and unit propagation over the disjunctions"""
+            known = {}  # text of atom -> (node, truth)
+            clauses = []  # lists of (node, wanted truth), at least one holds
+
+            def assert_(t, pol):
+                if isinstance(t, ast.UnaryOp) and isinstance(t.op, ast.Not):
+                    return assert_(t.operand, not pol)
+                if isinstance(t, ast.BoolOp):
+                    conj = isinstance(t.op, ast.And) == pol  # (A and B) true / (A or B) false: every part decided
+                    if conj:
+                        for v_ in t.values:
+                            assert_(v_, pol)
+                    else:
+                        clauses.append([(v_, pol) for v_ in t.values])
+                    return
+                known[src(t)] = (t, pol)
+
+            def value_of(t, pol):
+                """True / False / None: whether `t is pol` is known"""
+                if isinstance(t, ast.UnaryOp) and isinstance(t.op, ast.Not):
+                    return value_of(t.operand, not pol)
+                k = known.get(src(t))
+                return None if k is None else (k[1] == pol)
+
+            store_count = {}
+            for x in ast.walk(f.node):
+                if isinstance(x, ast.Name) and isinstance(x.ctx, ast.Store):
+                    store_count[x.id] = store_count.get(x.id, 0) + 1
+
+            def named(t, at):
+                """a test that is a local flag reads as the condition the flag was given (`pos = a > b` ... `if pos:`),
+                provided the flag and what the condition reads are each written once"""
+
+                class N(ast.NodeTransformer):
+                    def visit_Name(self, n):
+                        if store_count.get(n.id) == 1:
+                            r = _resolve_at(n, at, f.node, depth=1)
+                            if isinstance(r, (ast.Compare, ast.BoolOp)) or (isinstance(r, ast.UnaryOp) and isinstance(r.op, ast.Not)):
+                                if all(store_count.get(x.id, 0) <= 1 for x in ast.walk(r) if isinstance(x, ast.Name)):
+                                    return r
+                        return n
+
+                    def visit_Compare(self, n):
+                        return n  # operands of a comparison are values, not flags
+
+                    def visit_Call(self, n):
+                        return n
+
+                import copy as _copy
+
+                return N().visit(_copy.deepcopy(t))
+
+            for t, pol, at in facts:
+                assert_(named(t, at), pol)
+            changed = True
+            while changed:
+                changed = False
+                for cl in list(clauses):
+                    open_ = [(t, pol) for t, pol in cl if value_of(t, pol) is not False]
+                    if any(value_of(t, pol) for t, pol in cl):
+                        clauses.remove(cl)
+                        continue
+                    if len(open_) == 1:
+                        clauses.remove(cl)
+                        assert_(*open_[0])
+                        changed = True
+            return [t for t, pol in known.values() if pol]
 
         def guarded_by_branch(den, st):
             """`den` is a factor of a product P of quantities that are >= 0 by construction (norms, absolute
@@ -344,11 +459,9 @@ def div_guarded(ctx: Ctx):
             or a non-negative constant: then P > 0, hence every factor of P is > 0."""
             if not isinstance(den, ast.Name):
                 return None
-            cur = st
-            while id(cur) in par:
-                p_ = par[id(cur)]
-                if isinstance(p_, ast.If) and any(cur is b_ for b_ in p_.body):
-                    t = p_.test
+            p_ = st
+            if True:
+                for t in true_atoms(facts_at(st)):
                     if isinstance(t, ast.Compare) and len(t.ops) == 1 and isinstance(t.ops[0], (ast.Gt, ast.Lt)):
                         big, small = (t.left, t.comparators[0]) if isinstance(t.ops[0], ast.Gt) else (t.comparators[0], t.left)
                         bigr, smallr = _resolve_at(big, p_, f.node, depth=1), _resolve_at(small, p_, f.node, depth=1)
@@ -369,7 +482,6 @@ def div_guarded(ctx: Ctx):
                         fs = factors(bigr)
                         if any(isinstance(x, ast.Name) and x.id == den.id for x in fs) and all(nonneg(x) for x in fs) and nonneg(smallr):
                             return src(t)
-                cur = p_
             return None
 
         stmts = [st for st in ast.walk(f.node) if isinstance(st, ast.stmt) and not isinstance(st, (ast.If, ast.For, ast.While, ast.With, ast.Try, ast.FunctionDef))]
@@ -408,52 +520,82 @@ def branch_agree(ctx: Ctx):
 
     res = ctx.res
     f = ctx.repo.func(S + "randomized_svd")
-    def has_rf(block):
-        return any(isinstance(c, ast.Call) and _cn(c) == "randomized_range_finder" for b in block for c in ast.walk(b))
+    # every call of a routine of this module, with the branch decisions it sits under; statements after an
+    # `if` whose body always leaves are under the negation of its test (guard clause)
+    found = {}
 
-    routes = None
-    body = f.node.body
-    for i, st in enumerate(body):
-        if not isinstance(st, ast.If):
-            continue
-        if st.orelse and has_rf(st.body) and has_rf(st.orelse):
-            routes = (st.body, st.orelse)
-        elif not st.orelse and st.body and isinstance(st.body[-1], ast.Return) and has_rf(st.body) and has_rf(body[i + 1 :]):
-            routes = (st.body, body[i + 1 :])  # guard clause: the other route is what follows
-    if routes is None:
-        raise AnalysisError("BRANCH-AGREE: randomized_svd no longer has a transposed and a direct route that both call randomized_range_finder; cannot decide")
+    def leaves(block):
+        return bool(block) and isinstance(block[-1], (ast.Return, ast.Raise))
 
-    def calls(block):
-        out = {}
-        for b in block:
-            for c in ast.walk(b):
-                if isinstance(c, ast.Call):
-                    ct = ctx.repo.resolve_call(f, f.module, c)
-                    if ct.kind == "repo" and len(ct.funcs) == 1 and ct.funcs[0].module is f.module:
-                        out.setdefault(ct.funcs[0].name, []).append((c, ct))
-        return out
-
-    ca, cb = calls(routes[0]), calls(routes[1])
-    n = 0
-    for name in sorted(set(ca) & set(cb)):
-        if len(ca[name]) != 1 or len(cb[name]) != 1:
-            continue
-        (c1, ct1), (c2, ct2) = ca[name][0], cb[name][0]
-        g = ct1.funcs[0]
-        b1, b2 = bind_call(c1, g, ct1.bound), bind_call(c2, g, ct2.bound)
-        first = g.pos_params[0] if g.pos_params else None
-        for p_ in g.all_params:
-            if p_ == first:
+    def scan(block, under):
+        under = list(under)
+        for st in block:
+            if isinstance(st, ast.If):
+                for c in ast.walk(st.test):
+                    note(c, under)
+                scan(st.body, under + [(id(st), True)])
+                scan(st.orelse, under + [(id(st), False)])
+                if leaves(st.body) and not st.orelse:
+                    under = under + [(id(st), False)]
+                elif st.orelse and leaves(st.orelse) and not leaves(st.body):
+                    under = under + [(id(st), True)]
                 continue
-            a1, a2 = b1.params.get(p_), b2.params.get(p_)
-            s1, s2 = (src(a1) if a1 is not None else "<default>"), (src(a2) if a2 is not None else "<default>")
+            if isinstance(st, (ast.For, ast.While, ast.With, ast.Try)):
+                for fld in ("body", "orelse", "finalbody"):
+                    scan(getattr(st, fld, []) or [], under)
+                for h in getattr(st, "handlers", []) or []:
+                    scan(h.body, under)
+                for fld in ("iter", "test"):
+                    if getattr(st, fld, None) is not None:
+                        for c in ast.walk(getattr(st, fld)):
+                            note(c, under)
+                continue
+            if isinstance(st, (ast.FunctionDef, ast.AsyncFunctionDef, ast.ClassDef)):
+                continue
+            for c in ast.walk(st):
+                note(c, under)
+
+    def note(c, under):
+        if isinstance(c, ast.Call):
+            ct = ctx.repo.resolve_call(f, f.module, c)
+            if ct.kind == "repo" and len(ct.funcs) == 1 and ct.funcs[0].module is f.module:
+                found.setdefault(ct.funcs[0].name, []).append((c, ct, tuple(under)))
+
+    scan(f.node.body, [])
+    if "randomized_range_finder" not in found:
+        raise AnalysisError("BRANCH-AGREE: randomized_svd no longer calls randomized_range_finder; cannot decide")
+
+    def exclusive(u1, u2):
+        d1 = dict(u1)
+        return any(k in d1 and d1[k] != v for k, v in u2)
+
+    n = 0
+    for name in sorted(found):
+        sites = found[name]
+        g = sites[0][1].funcs[0]
+        first = g.pos_params[0] if g.pos_params else None
+        if len(sites) == 1:
             n += 1
-            ok = s1 == s2
-            res.instance("BRANCH-AGREE", f"randomized_svd: {name}({p_}=...)", sample={"transposed_route": s1, "direct_route": s2, "ok": ok})
-            if not ok:
-                ctx.finding("BRANCH-AGREE", f, c1, f"randomized_svd calls {name} with {p_}={s1} on one route and {p_}={s2} on the other: the two routes are the same algorithm applied to A^T and A, so the route taken (decided by the matrix shape) changes the accuracy / the result for the same request", construct=f"randomized_svd: {name} {p_}: {s1} vs {s2}")
+            res.instance("BRANCH-AGREE", f"randomized_svd: {name}: one call shared by all routes", sample={"call": src(sites[0][0])[:100], "ok": True})
+            continue
+        for i in range(len(sites)):
+            for j in range(i + 1, len(sites)):
+                (c1, ct1, u1), (c2, ct2, u2) = sites[i], sites[j]
+                b1, b2 = bind_call(c1, g, ct1.bound), bind_call(c2, g, ct2.bound)
+                for p_ in g.all_params:
+                    if p_ == first:
+                        continue
+                    a1, a2 = b1.params.get(p_), b2.params.get(p_)
+                    s1, s2 = (src(a1) if a1 is not None else "<default>"), (src(a2) if a2 is not None else "<default>")
+                    n += 1
+                    ok = s1 == s2
+                    res.instance("BRANCH-AGREE", f"randomized_svd: {name}({p_}=...) L{c1.lineno}/L{c2.lineno}", sample={"one_route": s1, "other_route": s2, "ok": ok})
+                    if not ok:
+                        if not exclusive(u1, u2):
+                            raise AnalysisError(f"BRANCH-AGREE: randomized_svd calls {name} twice on the same route with different {p_}; the rule compares alternative routes only; cannot decide")
+                        ctx.finding("BRANCH-AGREE", f, c1, f"randomized_svd calls {name} with {p_}={s1} on one route and {p_}={s2} on the other: the two routes are the same algorithm applied to A^T and A, so the route taken (decided by the matrix shape) changes the accuracy / the result for the same request", construct=f"randomized_svd: {name} {p_}: {s1} vs {s2}")
     if n == 0:
-        raise AnalysisError("BRANCH-AGREE: no routine is called on both routes of randomized_svd; cannot decide")
+        raise AnalysisError("BRANCH-AGREE: no routine of the module is called by randomized_svd; cannot decide")
 
 
 def nonneg_option(ctx: Ctx):
